@@ -325,3 +325,106 @@ func (a *AtomicCell) Sync(kind string) {
 	s.cur.release(&a.vc)
 	s.touch(&a.h.chain, 1)
 }
+
+// ---------------------------------------------------------------- Cond
+
+// Cond models sync.Cond: Wait atomically unlocks L and parks the caller until
+// a Signal/Broadcast picks it, then re-acquires L.  Which waiter a Signal
+// wakes is an explorer choice.
+type Cond struct {
+	L       sync.Locker
+	real    *sync.Cond
+	h       objHdr
+	waiters []*condWaiter
+	vc      VC
+}
+
+type condWaiter struct {
+	t     *Thread
+	woken bool
+}
+
+func NewCond(l sync.Locker) *Cond { return &Cond{L: l} }
+
+func (c *Cond) passthrough() *sync.Cond {
+	if c.real == nil {
+		c.real = sync.NewCond(c.L)
+	}
+	return c.real
+}
+
+func (c *Cond) reset(s *Sched) {
+	if c.h.init(s) {
+		c.waiters, c.vc = nil, nil
+	}
+}
+
+func (c *Cond) Wait() {
+	s := S
+	if s == nil {
+		c.passthrough().Wait()
+		return
+	}
+	c.reset(s)
+	w := &condWaiter{t: s.cur}
+	c.waiters = append(c.waiters, w)
+	s.touch(&c.h.chain, 1)
+	c.L.Unlock()
+	s.point(&op{kind: "Cond.Wait", obj: c.h.id, enabled: func() bool { return w.woken }})
+	s.cur.acquire(c.vc)
+	s.touch(&c.h.chain, 2)
+	c.L.Lock()
+}
+
+func (c *Cond) Signal() {
+	s := S
+	if s == nil {
+		c.passthrough().Signal()
+		return
+	}
+	c.reset(s)
+	s.point(&op{kind: "Cond.Signal", obj: c.h.id, enabled: func() bool { return true }})
+	s.cur.release(&c.vc)
+	s.touch(&c.h.chain, 3)
+	var idx []int
+	for i, w := range c.waiters {
+		if !w.woken {
+			idx = append(idx, i)
+		}
+	}
+	if len(idx) == 0 {
+		return
+	}
+	k := 0
+	if len(idx) > 1 {
+		k = Choose(len(idx))
+	}
+	c.waiters[idx[k]].woken = true
+	c.compact()
+}
+
+func (c *Cond) Broadcast() {
+	s := S
+	if s == nil {
+		c.passthrough().Broadcast()
+		return
+	}
+	c.reset(s)
+	s.point(&op{kind: "Cond.Broadcast", obj: c.h.id, enabled: func() bool { return true }})
+	s.cur.release(&c.vc)
+	s.touch(&c.h.chain, 4)
+	for _, w := range c.waiters {
+		w.woken = true
+	}
+	c.waiters = nil
+}
+
+func (c *Cond) compact() {
+	live := c.waiters[:0]
+	for _, w := range c.waiters {
+		if !w.woken {
+			live = append(live, w)
+		}
+	}
+	c.waiters = live
+}
